@@ -44,6 +44,8 @@ type childCfg struct {
 	H         History `json:"h"`
 	Dir       string  `json:"dir"`
 	StopAfter int     `json:"stop_after"` // idle after END of this op (-1: never)
+	From      int      `json:"from,omitempty"` // segment mode: first operation to apply
+	St        segState `json:"st,omitempty"`   // segment mode: harness state carried over the restart
 }
 
 // TestC10Child is the body of the child process; it is skipped in normal runs.
@@ -62,7 +64,7 @@ func TestC10Child(t *testing.T) {
 	}
 	out := os.NewFile(3, "report")
 	say := func(s string) { out.WriteString(s + "\n") } // one write(2) per line, unbuffered
-	if cfg.Mode == "restart" {
+	if cfg.Mode == "restart" || cfg.Mode == "segment" {
 		restartChild(cfg, say)
 		return
 	}
